@@ -13,6 +13,11 @@ Decided:
               body or closures; reviewed exemptions are keyed by function.
   AGREE-C08d  the PutOptions data fields that put_internal persists into the WAL entry equal the fields update_frame
               inherits from the old version.
+  GUARD-C08e  deletes reach the persisted indexes: wherever a caller of apply_records decides whether to run
+              rebuild_indexes, the deciding condition depends on IngestionDelta.mutated_frames (directly, or through
+              IngestionDelta::is_empty, whose body reads it). A gate that looks only at inserted frames/embeddings
+              skips the rebuild for a commit that only deletes: the vector index on disk keeps the deleted frame and
+              serves it after reopen (the vector read paths rely on the index holding active frames only).
 Not decided: what the searches return (values)."""
 from . import lib
 from .facts import Place, op_place, rv_places
@@ -37,7 +42,60 @@ REMOVERS = {'tantivy': ('delete_frame',), 'lex_index': ('remove_document',), 've
 NOT_DATA_TYPES = ('bool', 'u64', 'u32', 'usize')
 
 
+def _delta_fields(F, fn, sl, depth=2):
+    out = {f for o, f in sl.fields if o == 'IngestionDelta'}
+    for c in sl.calls:
+        lc = c.local_callee
+        if lc and lc in F.fns and depth > 0 and 'IngestionDelta' in (F.fns[lc].r.get('impl_self') or ''):
+            g = F.fns[lc]
+            for b in [g] + F.closures_of(g):
+                for bb, i, st in b.stmts():
+                    for p in rv_places(st['rv']):
+                        out |= {f for o, f in p.field_owners() if o == 'IngestionDelta'}
+    return out
+
+
+def _rebuild_gate(ctx, F):
+    ctx.rule('GUARD-C08e', 'the condition that gates rebuild_indexes after apply_records depends on IngestionDelta.mutated_frames')
+    n = 0
+    for fn in sorted(F.fns.values(), key=lambda x: x.path):
+        ap = fn.calls_to('Memvid::apply_records')
+        rb = fn.calls_to('Memvid::rebuild_indexes')
+        if not ap or not rb or fn.is_closure:
+            continue
+        ctx.touch(fn, len(fn.blocks))
+        for r in rb:
+            if not lib.call_success_dominates(fn, ap[0], r.bb):
+                continue
+            gates = []
+            exits = {ex['bb'] for ex in fn.ok_exits()}
+            for bs in lib.bool_switches(fn):
+                if not fn.dominates(ap[0].bb, bs['bb']) or r.bb not in fn.reachable(bs['bb']):
+                    continue
+                # a gate: one way out of the branch reaches an Ok exit without passing the rebuild
+                skips = any(fn.reachable(edge, avoid={r.bb}) & exits for edge in (bs['t_true'], bs['t_false']))
+                if not skips:
+                    continue
+                sl = lib.slice_back(fn, [{'c': {'l': bs['local'], 'p': []}}], through_calls=True, at=(bs['bb'], None))
+                flds = _delta_fields(F, fn, sl)
+                if flds:
+                    gates.append((bs, flds))
+            n += 1
+            ctx.evaluations += 1
+            if not gates:
+                ctx.ok('GUARD-C08e', fn, 'rebuild_indexes after apply_records is not gated on the delta', line=r.line)
+                continue
+            seen = set().union(*[f for _, f in gates])
+            if 'mutated_frames' in seen:
+                ctx.ok('GUARD-C08e', fn, 'the rebuild gate reads IngestionDelta.mutated_frames (fields read: %s)' % ', '.join(sorted(seen)), line=r.line)
+            else:
+                ctx.bad('GUARD-C08e', fn, 'rebuild_indexes is gated on %s only: a commit that only deletes skips the rebuild, so the persisted vector index keeps the deleted frame and vector search '
+                        'serves it after reopen' % (', '.join(sorted(seen)) or 'other state'), line=gates[0][0]['line'], sink='rebuild_indexes', detail='rebuild-gate-ignores-deletes')
+    ctx.floor('GUARD-C08e', n, 2, 'rebuild_indexes calls that follow apply_records')
+
+
 def run(ctx):
+    _rebuild_gate(ctx, ctx.facts())
     ctx.rule('AGREE-C08a', 'mark_frame_deleted/superseded store a non-Active status and reach remove_frame_from_indexes; successor recorded')
     ctx.rule('MPT-C08a2', 'apply_records: supersedes=Some => mark_frame_superseded before the push; Tombstone => mark_frame_deleted before the next record')
     ctx.rule('AGREE-C08b', 'remove_frame_from_indexes covers every in-memory index the search paths read')
